@@ -1176,6 +1176,11 @@ class CallsMixin:
                     v = self.empty_of(kind, v)
                 out[n] = v
             else:
+                if isinstance(v.kind, K._None) and not isinstance(kind, (K.Opt, K._None)):
+                    # a plain None where the contract declares a non-None parameter
+                    self.check(z3.BoolVal(False), 'call %s@%s:arg %s not None' %
+                               (c.name, getattr(node, 'lineno', '?'), n), 'precondition', node)
+                    raise PathEnd()
                 if isinstance(v.kind, K.Opt) and not isinstance(kind, K.Opt):
                     # the contract declares a non-None parameter: passing None is the caller's fault
                     self.check(z3.Not(K.opt_isnone(v)), 'call %s@%s:arg %s not None' %
